@@ -43,6 +43,7 @@ def run_child(case, work, bound):
     env["TZ"] = "UTC"
     env["LC_ALL"] = "C.UTF-8"
     t0 = time.time()
+    idle_s = 0.0
     p = subprocess.Popen([RUNNER, sp], env=env, stdout=subprocess.DEVNULL, stderr=subprocess.PIPE, cwd=work)
     try:
         _, err = p.communicate(timeout=bound)
@@ -50,6 +51,10 @@ def run_child(case, work, bound):
         hung = False
     except subprocess.TimeoutExpired:
         hung = True
+        try:
+            idle_s = time.time() - os.path.getmtime(j)
+        except OSError:
+            idle_s = time.time() - t0
         p.kill()
         _, err = p.communicate()
         rc = None
@@ -62,7 +67,7 @@ def run_child(case, work, bound):
     if os.path.exists(lp):
         with open(lp, "rb") as f:
             filetext = f.read()
-    return dict(rc=rc, hung=hung, err=(err or b"").decode(errors="replace"), journal=journal, filetext=filetext, secs=time.time() - t0)
+    return dict(rc=rc, hung=hung, idle_s=idle_s, err=(err or b"").decode(errors="replace"), journal=journal, filetext=filetext, secs=time.time() - t0)
 
 
 def analyse(case, r):
@@ -155,30 +160,42 @@ def run(case):
     try:
         total = case["backlog"] + case["racers"] * case["racerMsgs"] + case["after"] + 2 * case["cycles"] * case["cycleMsgs"]
         bound = total * case["delayUs"] / 1e6 + case.get("stallMs", 0) / 1e3 + 25
-        attempts = 3
+        # Non-termination is the property. A child counts as hung when the bound (>= 100x the expected duration) passes AND its
+        # journal has not grown for at least 10 s (slowness shows progress, a hang does not). The scenario is a violation when it
+        # hangs twice in up to six runs: a deadlock that needs a particular interleaving does not hang every time.
+        max_runs, need = 6, 2
         if HANG_CONFIRMED[0] and not os.environ.get("VERIF_REPLAY"):
-            # a hang has been confirmed with the full bound in this run: while shrinking it, a shorter bound keeps the search
-            # affordable; the driver replays the final case with the full bound and three attempts before reporting it
-            bound = total * case["delayUs"] / 1e6 * 2 + case.get("stallMs", 0) / 1e3 + 6
-            attempts = 1
-        r = run_child(case, work, bound)
-        if r["hung"]:
-            # non-termination is the property; confirm twice before calling it
-            hangs = 1
-            for _ in range(attempts - 1):
-                r2 = run_child(case, work, bound)
-                hangs += r2["hung"]
-                if not r2["hung"]:
-                    r = r2
+            # a hang has been confirmed in this run: while shrinking it, a shorter bound keeps the search affordable; the driver
+            # replays the final case with the full procedure before reporting it
+            bound = total * case["delayUs"] / 1e6 * 2 + case.get("stallMs", 0) / 1e3 + 12
+            max_runs, need = 2, 1
+        hangs, r, last_hung = 0, None, None
+        for attempt in range(max_runs):
+            r = run_child(case, work, bound)
+            if r["hung"] and r["idle_s"] >= 10:
+                hangs += 1
+                last_hung = r
+                if hangs >= need:
                     break
-            if hangs == attempts:
-                HANG_CONFIRMED[0] = True
-                nA = sum(1 for l in r["journal"] if l[0] == "A")
-                nD = sum(1 for l in r["journal"] if l[0] == "D")
-                z = any(l[0] == "Z" for l in r["journal"])
-                return "the process did not terminate within %.0f s (every attempt): stop path %s, app %s, %d messages accepted, %d delivered, end of main %s" % (
-                    bound, case["stop"], case["app"], nA, nD, "reached (hangs in static destruction)" if z else "not reached")
+            elif r["hung"]:
+                STATS.count("slow_children_not_counted_as_hung")
+            else:
+                if hangs == 0:
+                    break
+        if hangs >= need:
+            HANG_CONFIRMED[0] = True
+            jr = last_hung["journal"]
+            nA = sum(1 for l in jr if l[0] == "A")
+            nD = sum(1 for l in jr if l[0] == "D")
+            z = any(l[0] == "Z" for l in jr)
+            e_missing = any(l[0] == "S" for l in jr) and not any(l[0] == "E" for l in jr)
+            return "the process did not terminate within %.0f s and made no progress for %.0f s (%d of %d runs): stop path %s, app %s, %d messages accepted, %d delivered, %s" % (
+                bound, last_hung["idle_s"], hangs, attempt + 1, case["stop"], case["app"], nA, nD,
+                "the stop never returned" if e_missing else ("end of main reached (hangs in static destruction)" if z else "end of main not reached"))
+        if hangs:
             STATS.count("hangs_not_reproduced")
+        if r["hung"]:
+            return ""  # slow, not hung: inconclusive, never a violation
         if r["rc"] == 98:
             return "sanitizer report in the child: " + r["err"][-1800:]
         if r["rc"] != 0:
@@ -197,6 +214,8 @@ def run(case):
         STATS.cls("racing_producers", case["racers"] > 0 and case["stop"] in ("reset", "quit"))
         STATS.cls("messages_after_stop", case["after"] > 0)
         STATS.cls("cycles", case["cycles"] > 0)
+        STATS.cls("cycles>=60", case["cycles"] >= 60)
+        STATS.cls("stop_aligned_with_worker_finishing", bool(case.get("alignStop")))
         STATS.cls("stop_" + case["stop"])
         STATS.cls("app_" + case["app"])
         STATS.cls("exit_without_exec", case["stop"] == "exit_return" and case["app"] != "heap" and not case["loopRan"])
@@ -236,7 +255,8 @@ def strategy():
         racer_msgs = draw(st.integers(1, 40)) if racers else 0
         if delay >= 5000:
             racer_msgs = min(racer_msgs, 10)
-        cycles = draw(st.sampled_from([0, 0, 1, 2, 4])) if config != "oneline" else 0
+        # many start/stop cycles in one process: a stop that can miss the worker's "drained" signal shows only once in a while
+        cycles = draw(st.sampled_from([0, 0, 0, 1, 1, 2, 2, 4, 4, 60, 250])) if config != "oneline" else 0
         loop_ran = draw(st.booleans()) if app != "none" else False
         if "C04-static-destruction-with-qt-globals" in os.environ.get("VERIF_EXCLUDE", "").split(",") and known_static_destruction_class(
                 dict(config=config, stop=stop, app=app)):
@@ -245,8 +265,9 @@ def strategy():
         return dict(
             subject=subject, config=config, app=app, stop=stop, delayUs=delay, backlog=backlog, racers=racers, racerMsgs=racer_msgs,
             after=draw(st.sampled_from([0, 0, 1, 5])) if stop in ("reset", "quit") else 0,
-            cycles=cycles, cycleMsgs=draw(st.integers(1, 8)) if cycles else 0,
+            cycles=cycles, cycleMsgs=(draw(st.integers(1, 8)) if cycles < 50 else draw(st.integers(1, 2))) if cycles else 0,
             loopRan=loop_ran, reAsync=draw(st.booleans()) if loop_ran else False,
+            alignStop=draw(st.booleans()) if (cycles >= 60 and app != "none") else False,
             # the delivery of the last queued message takes longer than the 3 s the stop grants the thread to finish
             stallMs=draw(st.sampled_from([0] * 19 + [3500])) if (config == "fluent" and racers == 0 and backlog > 0 and stop != "exit_call") else 0,
         )
